@@ -31,8 +31,11 @@
  *                 stall        open/read/write: before the call, create <plan>.reached and wait until
  *                              <plan>.release exists (the driver runs another process meanwhile)
  *                 size:N       stat: the call succeeds but reports N as the file size
+ *                 rdonly       open: fails with EACCES when the file is opened for writing (a read-only artefact)
  *                 xdev         rename: fails with EXDEV when source and destination lie in different directories
  *                              (every directory its own file system)
+ * rule ... seek <pattern> <nth> errno:ESPIPE : the file is not seekable (a pipe where a file is expected)
+ * SIMWORLD_CLOCK=freeze: every clock_gettime() reports the same instant (a clock too coarse to tell two moments apart)
  * SIMWORLD_ABS=<dir>: absolute paths below <dir> belong to the world as well (logged and matched as spelled).
  * Default readdir order (no rule): sorted by name.
  *
@@ -52,6 +55,7 @@
 #include <sys/stat.h>
 #include <sys/types.h>
 #include <sys/uio.h>
+#include <time.h>
 #include <unistd.h>
 
 #define MAX_RULES 64
@@ -59,10 +63,10 @@
 #define MAX_DIRS 32
 #define MAX_SHORTS 32
 
-enum call_kind { C_OPEN, C_READ, C_WRITE, C_UNLINK, C_READDIR, C_DLOPEN, C_DLSYM, C_STAT, C_RENAME, C_NKINDS };
-static const char *call_names[] = {"open", "read", "write", "unlink", "readdir", "dlopen", "dlsym", "stat", "rename"};
+enum call_kind { C_OPEN, C_READ, C_WRITE, C_UNLINK, C_READDIR, C_DLOPEN, C_DLSYM, C_STAT, C_RENAME, C_SEEK, C_NKINDS };
+static const char *call_names[] = {"open", "read", "write", "unlink", "readdir", "dlopen", "dlsym", "stat", "rename", "seek"};
 
-enum action_kind { A_SHORT, A_EINTR, A_ERRNO, A_KILL, A_KILLAFTER, A_NULL, A_GONE, A_PERM, A_STALL, A_SIZE, A_XDEV };
+enum action_kind { A_SHORT, A_EINTR, A_ERRNO, A_KILL, A_KILLAFTER, A_NULL, A_GONE, A_PERM, A_STALL, A_SIZE, A_XDEV, A_RDONLY };
 
 struct rule {
     char id[32];
@@ -119,12 +123,16 @@ static void *(*real_dlsym)(void *, const char *);
 static ssize_t (*real_getrandom)(void *, size_t, unsigned int);
 static int (*real_statx)(int, const char *, int, unsigned int, struct statx *);
 static int (*real_rename)(const char *, const char *);
+static off_t (*real_lseek)(int, off_t, int);
+static off64_t (*real_lseek64)(int, off64_t, int);
+static int (*real_clock_gettime)(clockid_t, struct timespec *);
+static int clock_frozen;
 
 static const struct { const char *name; int value; } errnos[] = {
     {"EIO", EIO}, {"ENOSPC", ENOSPC}, {"EACCES", EACCES}, {"EMFILE", EMFILE},
     {"ENOENT", ENOENT}, {"EBUSY", EBUSY}, {"EPERM", EPERM}, {"EISDIR", EISDIR},
     {"EINTR", EINTR}, {"EAGAIN", EAGAIN}, {"EROFS", EROFS}, {"ENOMEM", ENOMEM},
-    {"EPIPE", EPIPE}, {"EBADF", EBADF}, {"EXDEV", EXDEV}, {NULL, 0}};
+    {"EPIPE", EPIPE}, {"EBADF", EBADF}, {"EXDEV", EXDEV}, {"ESPIPE", ESPIPE}, {NULL, 0}};
 
 static int hexval(int c)
 {
@@ -267,6 +275,9 @@ static void parse_plan(const char *path)
                 parse_list(e + 5, r);
             } else if (!strcmp(e, "stall")) {
                 r->action = A_STALL;
+            } else if (!strcmp(e, "rdonly")) {
+                r->action = A_RDONLY;
+                r->err = EACCES;
             } else if (!strcmp(e, "xdev")) {
                 r->action = A_XDEV;
                 r->err = EXDEV;
@@ -306,6 +317,11 @@ static void init(void)
     real_getrandom = real_dlsym_bootstrap("getrandom");
     real_statx = real_dlsym_bootstrap("statx");
     real_rename = real_dlsym_bootstrap("rename");
+    real_lseek = real_dlsym_bootstrap("lseek");
+    real_lseek64 = real_dlsym_bootstrap("lseek64");
+    real_clock_gettime = real_dlsym_bootstrap("clock_gettime");
+    p = getenv("SIMWORLD_CLOCK");
+    clock_frozen = p && !strcmp(p, "freeze");
     abs_prefix = getenv("SIMWORLD_ABS");
     if (abs_prefix && !*abs_prefix) abs_prefix = NULL;
     abs_prefix_len = abs_prefix ? strlen(abs_prefix) : 0;
@@ -433,7 +449,10 @@ static int open_common(int kind, int dirfd, const char *path, int flags, mode_t 
         r->fired++;
         if (r->action == A_KILL) do_kill("open", np, r);
         if (r->action == A_STALL) do_stall("stall-open", np, r);
-        if (r->action == A_EINTR || r->action == A_ERRNO) {
+        if (r->action == A_RDONLY && (flags & O_ACCMODE) == O_RDONLY) { r->fired--; r = NULL; } /* reading a read-only file is fine */
+    }
+    if (r) {
+        if (r->action == A_EINTR || r->action == A_ERRNO || r->action == A_RDONLY) {
             log_event("open", np, flags, -1, r->err, r->id);
             pthread_mutex_unlock(&lock);
             errno = r->err;
@@ -586,6 +605,41 @@ ssize_t writev(int fd, const struct iovec *iov, int iovcnt)
     for (i = 0; i < iovcnt; i++)
         if (iov[i].iov_len) return write(fd, iov[i].iov_base, iov[i].iov_len);
     return 0;
+}
+
+/* ------------------------------------------------------------ seek, clock */
+
+static long seek_common(int fd, long off, int whence, int wide)
+{
+    struct rule *r;
+    init();
+    if (fd > 2 && fd < MAX_FDS && fd_path[fd] && fd != log_fd) {
+        pthread_mutex_lock(&lock);
+        r = match_rule(C_SEEK, fd_path[fd]);
+        if (r && (r->action == A_ERRNO || r->action == A_EINTR)) {
+            r->fired++;
+            log_event("seek", fd_path[fd], off, -1, r->err, r->id);
+            pthread_mutex_unlock(&lock);
+            errno = r->err;
+            return -1;
+        }
+        pthread_mutex_unlock(&lock);
+    }
+    return wide ? (long)real_lseek64(fd, (off64_t)off, whence) : (long)real_lseek(fd, (off_t)off, whence);
+}
+
+off_t lseek(int fd, off_t off, int whence) { return (off_t)seek_common(fd, (long)off, whence, 0); }
+off64_t lseek64(int fd, off64_t off, int whence) { return (off64_t)seek_common(fd, (long)off, whence, 1); }
+
+int clock_gettime(clockid_t id, struct timespec *ts)
+{
+    init();
+    if (clock_frozen && ts) {
+        ts->tv_sec = 1000000;
+        ts->tv_nsec = 0;
+        return 0;
+    }
+    return real_clock_gettime(id, ts);
 }
 
 /* ------------------------------------------------------------ stat, rename */
